@@ -100,8 +100,16 @@ class CoefficientCollector(Mapper):
     def map_constant(self, expr):
         return {1: expr}
 
-    def map_algebraic_leaf(self, expr):
+    def map_variable(self, expr):
         if self.target_names is None or expr.name in self.target_names:
+            return {expr: 1}
+        else:
+            return {1: expr}
+
+    def map_algebraic_leaf(self, expr):
+        # Subscripts, calls and the like have no name: they can only be
+        # targets when no target names were given.
+        if self.target_names is None:
             return {expr: 1}
         else:
             return {1: expr}
